@@ -30,6 +30,10 @@ import (
 type C11Conn struct {
 	Phase   string `json:"phase"` // idle-new | idle-after | partial-head | at-origin | mid-response | tunnel
 	BodyLen int    `json:"body_len"`
+	// Upgrade (phase at-origin): the held request asks for a protocol upgrade and the origin, once released, answers
+	// 101: an exchange like any other - the answer is delivered, then the connection is closed; no tunnel is set up
+	// while the proxy shuts down
+	Upgrade bool `json:"upgrade,omitempty"`
 }
 
 type C11Act struct {
@@ -58,6 +62,9 @@ func genC11(t *rapid.T) C11Case {
 	for i := 0; i < n; i++ {
 		c.Conns = append(c.Conns, C11Conn{Phase: rapid.SampledFrom(phases).Draw(t, "phase"),
 			BodyLen: rapid.SampledFrom([]int{0, 10, 5000, 70000}).Draw(t, "bodylen")})
+		if c.Conns[i].Phase == "at-origin" && rapid.IntRange(0, 2).Draw(t, "upgrade") == 0 {
+			c.Conns[i].Upgrade, c.Conns[i].BodyLen = true, 0
+		}
 	}
 	m := rapid.IntRange(0, 2*n+2).Draw(t, "nacts")
 	for i := 0; i < m; i++ {
@@ -202,6 +209,12 @@ func runC11once(c C11Case) (fails []vstat.Failure) {
 		case "at-origin", "mid-response":
 			cl.wantBody = Payload(uint32(id)*7+uint32(i), spec.BodyLen)
 			head := fmt.Sprintf("HTTP/1.1 200 OK\r\nX-Rid: %s\r\nContent-Length: %d\r\n\r\n", cl.vid, len(cl.wantBody))
+			upg := ""
+			if spec.Upgrade && spec.Phase == "at-origin" {
+				cl.wantBody = nil
+				head = fmt.Sprintf("HTTP/1.1 101 Switching Protocols\r\nConnection: Upgrade\r\nUpgrade: verif-proto\r\nX-Rid: %s\r\n\r\n", cl.vid)
+				upg = "Connection: Upgrade\r\nUpgrade: verif-proto\r\n"
+			}
 			cl.raw = append([]byte(head), cl.wantBody...)
 			first := []byte{}
 			if spec.Phase == "mid-response" {
@@ -219,7 +232,7 @@ func runC11once(c C11Case) (fails []vstat.Failure) {
 			}}
 			scripts.Store(cl.vid, cl.sc)
 			defer scripts.Delete(cl.vid)
-			fmt.Fprintf(tc, "GET http://%s/inflight HTTP/1.1\r\nHost: %s\r\nX-Vid: %s\r\n\r\n", host, host, cl.vid)
+			fmt.Fprintf(tc, "GET http://%s/inflight HTTP/1.1\r\nHost: %s\r\nX-Vid: %s\r\n%s\r\n", host, host, cl.vid, upg)
 			select {
 			case <-arrived:
 			case <-time.After(5 * time.Second):
@@ -401,8 +414,8 @@ func runC11once(c C11Case) (fails []vstat.Failure) {
 			switch {
 			case r.err != nil:
 				fails = append(fails, vstat.Failf(key("inflight-lost"), "connection %d (%s): the request had reached its origin before shutdown, but the response did not arrive intact: %v", i, cl.spec.Phase, r.err))
-			case r.m.Status != 200 || !bytes.Equal(r.m.Body, cl.wantBody):
-				fails = append(fails, vstat.Failf(key("inflight-corrupt"), "connection %d (%s): response status %d with %d body bytes, want 200 with %d", i, cl.spec.Phase, r.m.Status, len(r.m.Body), len(cl.wantBody)))
+			case r.m.Status != c11WantStatus(cl.spec) || !bytes.Equal(r.m.Body, cl.wantBody) || r.m.First("X-Rid") != cl.vid:
+				fails = append(fails, vstat.Failf(key("inflight-corrupt"), "connection %d (%s): response status %d (X-Rid %q) with %d body bytes, want %d (X-Rid %q) with %d", i, cl.spec.Phase, r.m.Status, r.m.First("X-Rid"), len(r.m.Body), c11WantStatus(cl.spec), cl.vid, len(cl.wantBody)))
 			case r.eof && cl.spec.Phase == "at-origin" && r.eofAt.Sub(r.respAt) > 100*time.Millisecond:
 				// judged once the end of the drain is known: closing a finished connection must not wait for it
 				lateClosed = append(lateClosed, fmt.Sprintf("%d|%d|%d", i, r.respAt.UnixNano(), r.eofAt.UnixNano()))
@@ -557,6 +570,13 @@ func runC11once(c C11Case) (fails []vstat.Failure) {
 	return fails
 }
 
+func c11WantStatus(s C11Conn) int {
+	if s.Upgrade && s.Phase == "at-origin" {
+		return 101
+	}
+	return 200
+}
+
 type countingListener struct {
 	net.Listener
 	mu sync.Mutex
@@ -582,6 +602,9 @@ func classifyC11(c C11Case) (bool, string, []string) {
 	for _, x := range c.Conns {
 		phases[x.Phase] = true
 		cls = append(cls, "phase-"+x.Phase)
+		if x.Upgrade && x.Phase == "at-origin" {
+			cls = append(cls, "upgrade-in-flight")
+		}
 		if x.Phase == "at-origin" || x.Phase == "mid-response" {
 			inflight = true
 		}
